@@ -108,6 +108,44 @@ enum StepErr {
     Panic(crate::exec::PanicInfo),
 }
 
+thread_local! {
+    static PRIMED_BODY: std::cell::RefCell<Option<tx3_cardano::TxBody>> = const { std::cell::RefCell::new(None) };
+}
+
+/// a body for the compiler to remember: one input, `n` outputs of different encoded sizes
+fn prime(pp: &crate::rsim::PPCfg, n: usize) {
+    use tx3_tir::compile::Compiler as _;
+    let addr = tir::Expression::Address(addr_for(0, false, false));
+    let mut v = Value::new();
+    v.insert(None, 50_000_000);
+    let u = SimUtxo { address: addr_for(0, false, false), value: v, datum: None, script: None }.to_utxo(&(vec![0x99; 32], 0));
+    let ada = |x: i128| tir::Expression::Assets(vec![tir::AssetExpr { policy: tir::Expression::None, asset_name: tir::Expression::None, amount: tir::Expression::Number(x) }]);
+    let outputs = (0..n)
+        .map(|i| tir::Output {
+            address: addr.clone(),
+            datum: if i % 2 == 0 { tir::Expression::Bytes(vec![7u8; 40 + 90 * i]) } else { tir::Expression::None },
+            amount: ada(2_000_000 + i as i128),
+            optional: false,
+        })
+        .collect();
+    let tx = tir::Tx {
+        fees: ada(200_000),
+        references: vec![],
+        inputs: vec![tir::Input { name: "p".into(), utxos: tir::Expression::UtxoSet(HashSet::from([u])), redeemer: tir::Expression::None }],
+        outputs,
+        validity: None,
+        mints: vec![],
+        burns: vec![],
+        adhoc: vec![],
+        collateral: vec![],
+        signers: None,
+        metadata: vec![],
+    };
+    let mut c = make_compiler(pp);
+    let _ = guarded(|| c.compile(&tx3_tir::encoding::AnyTir::V1Beta0(tx)));
+    PRIMED_BODY.with(|b| *b.borrow_mut() = c.latest_tx_body.take());
+}
+
 fn apply_op(
     st: &mut State,
     op: &Op,
@@ -124,6 +162,13 @@ fn apply_op(
             Op::Fees => tx3_tir::reduce::apply_fees(tx, fee).map_err(|e| format!("{e:?}")),
             Op::Compiler => {
                 let mut c = make_compiler(pp);
+                // the instance may have compiled something before (a previous fee round, another
+                // request): the same body in every compiler pass of the world
+                PRIMED_BODY.with(|b| {
+                    if let Some(body) = b.borrow().as_ref() {
+                        c.latest_tx_body = Some(body.clone());
+                    }
+                });
                 tx.apply(&mut c).map_err(|e| format!("{e:?}"))
             }
             Op::Reduce => tx3_tir::reduce::reduce(tx).map_err(|e| format!("{e:?}")),
@@ -194,6 +239,13 @@ fn check_idempotent(st: &State, pp: &crate::rsim::PPCfg, rep: &mut WorldReport, 
 
 fn inner(world_no: u64, t: &mut Tape, rep: &mut WorldReport) {
     let pp = draw_pparams(t, false);
+    // a third of the worlds run against a compiler that remembers a body (0..4 outputs)
+    PRIMED_BODY.with(|b| *b.borrow_mut() = None);
+    if t.draw(3) == 2 {
+        let n = t.index(5);
+        prime(&pp, n);
+        rep.fire("compiler-remembers-a-body");
+    }
     // ---- template: an example program or a generated one
     let examples = crate::p_entropy::example_sources();
     let use_example = !examples.is_empty() && t.chance(1, 5);
